@@ -34,6 +34,11 @@ class CallMixin:
         # generator / comprehension consumers
         if isinstance(e.func, ast.Name) and e.func.id in ("any", "all", "tuple", "list", "set", "sum") and len(e.args) == 1 and isinstance(e.args[0], (ast.GeneratorExp, ast.ListComp)) and e.func.id not in st.locals:
             return self.comprehension(e.func.id, e.args[0], st, e, k)
+        if txt in self.con.opaque and any(isinstance(a_, (ast.GeneratorExp, ast.ListComp, ast.DictComp, ast.SetComp)) for a_ in e.args):
+            # a comprehension handed to a declared-opaque callee is not evaluated (its element expressions are pure reads)
+            self.note(f"comprehension argument of opaque callee {txt} is not evaluated (assumed free of side effects)")
+            e = ast.Call(func=e.func, args=[ast.Constant(value=None) if isinstance(a_, (ast.GeneratorExp, ast.ListComp, ast.DictComp, ast.SetComp)) else a_ for a_ in e.args], keywords=e.keywords)
+            ast.fix_missing_locations(e)
         star = [a for a in e.args if isinstance(a, ast.Starred)]
         if star and not (len(e.args) == 1):
             raise Unsupported("mixed *args call")
